@@ -30,7 +30,12 @@ impl<'a> Parser<'a> {
 
     /// Parses the query into a statement.
     pub fn parse(&mut self) -> Result<Statement> {
-        self.parse_statement()
+        let statement = self.parse_statement()?;
+        // Nothing may follow the traversal: leftover tokens used to be ignored
+        if !matches!(self.current_kind(), None | Some(TokenKind::Eof)) {
+            return Err(self.error("Unexpected input after the end of the traversal"));
+        }
+        Ok(statement)
     }
 
     fn parse_statement(&mut self) -> Result<Statement> {
